@@ -95,6 +95,61 @@ def schedule_of(states):
     return out
 
 
+PC_LABEL = {
+    'L_head': ('(*mappedFile).lookup', 'Uint32.Load'), 'L_len': ('entryAt<(*mappedFile).lookup', 'Uint32.Load'),
+    'L_next': ('entryAt<(*mappedFile).lookup', 'Uint32.Load'),
+    'M_limit': ('load32<(*mappedFile).newCounter', 'Uint32.Load'), 'R_limit': ('load32<(*mappedFile).newCounter', 'Uint32.Load'),
+    'K_reload': ('load32<(*mappedFile).newCounter', 'Uint32.Load'),
+    'M_open': ('openMapped<(*mappedFile).newCounter', 'os.OpenFile'), 'M_stat': ('openMapped<(*mappedFile).newCounter', 'file.Stat'),
+    'E_stat': ('(*mappedFile).extend<', 'file.Stat'), 'E_write': ('(*mappedFile).extend<', 'file.WriteAt'),
+    'E_open': ('openMapped<(*mappedFile).extend', 'os.OpenFile'), 'E_map': ('openMapped<(*mappedFile).extend', 'file.Stat'),
+    'R_cas': ('cas32<(*mappedFile).newCounter', 'Uint32.CompareAndSwap'), 'K_cas': ('cas32<(*mappedFile).newCounter', 'Uint32.CompareAndSwap'),
+    'W_len': ('writeEntryAt<', 'StoreUint32'),
+    'K_store': ('(*mappedFile).newCounter<', 'Uint32.Store'), 'K_dead': ('(*mappedFile).newCounter<', 'Uint32.Store'),
+    'K_giveup': ('(*mappedFile).newCounter<', 'Uint32.Store'),
+    'S_len': ('entryAt<(*mappedFile).newCounter', 'Uint32.Load'), 'S_next': ('entryAt<(*mappedFile).newCounter', 'Uint32.Load'),
+    'V_load': ('(*Counter).add', 'Uint64.Load'), 'V_cas': ('(*Counter).add', 'Uint64.CompareAndSwap'),
+}
+
+
+def label_script(states):
+    """segment-wise, label-aligned form of a witness (see checks/c03.py label_script); kills are kept."""
+    moves = []
+    for a, b in zip(states, states[1:]):
+        killed = [p for p in b['alive'] if a['alive'][p] and not b['alive'][p]]
+        if killed:
+            moves.append(('kill:' + killed[0], None))
+            continue
+        for p in b['pc']:
+            if any(b[v][p] != a[v][p] for v in ('pc', 'ph', 'lhead', 'off', 'lim', 'start', 'tries', 'old', 'vslot', 'vold', 'err', 'maplen')):
+                moves.append((p, b['pc'][p]))
+    counts, entries = {}, []
+    for (t, pc) in moves:
+        if t.startswith('kill:'):
+            entries.append((t, None, 0))
+            continue
+        lab = PC_LABEL.get(pc)
+        if lab:
+            counts[(t, lab)] = counts.get((t, lab), 0) + 1
+        entry = (t, lab, counts.get((t, lab), 0), pc)
+        if entries and entries[-1][0] == t:
+            entries[-1] = entry
+        else:
+            entries.append(entry)
+    script = []
+    for e in entries:
+        if e[0].startswith('kill:'):
+            script.append(e[0])
+        elif e[1] is None:
+            if e[3] == 'Done':
+                script.append('%s>>done|x|1' % e[0])
+            else:
+                return None
+        else:
+            script.append('%s>>%s|%s|%d' % (e[0], e[1][0], e[1][1], max(1, e[2])))
+    return script
+
+
 def short(label):
     parts = [p.replace('(*mappedFile).', '').replace('(*Counter).', 'Counter.').replace('(*file).', 'file.') for p in label.split('<')]
     keep = []
@@ -174,6 +229,10 @@ def run(ctx):
             model_results['%s/%s' % (f['name'], onames[name])] = 'reachable (%d steps)' % len(sched)
             for fin in ('stick', 'rr', 'random', 'randomkill'):
                 add_run(f, sched, fin, onames[name])
+            scr = label_script([s for (_a, s) in tr])
+            if scr:
+                for fin in ('stick', 'rr'):
+                    add_run(f, scr, fin, onames[name] + ':aligned')
     fams = fams + [DEEP]
     for scr in DEEP_SCRIPTS:
         for fin in ('stick', 'rr'):
